@@ -617,4 +617,230 @@ impl<'a> hb_ot_map_builder_t<'a> {
 #[allow(unused_imports, dead_code, missing_docs)]
 pub mod verif_hooks {
     use super::*;
+    use alloc::format;
+    use alloc::string::String;
+
+    /// MAX_BITS, MAX_VALUE, GLOBAL_BIT_SHIFT, GLOBAL_BIT_MASK, glyph_flag::{DEFINED, UNSAFE_TO_BREAK,
+    /// UNSAFE_TO_CONCAT, SAFE_TO_INSERT_TATWEEL}
+    pub fn constants() -> [u32; 8] {
+        [
+            hb_ot_map_t::MAX_BITS,
+            hb_ot_map_t::MAX_VALUE,
+            GLOBAL_BIT_SHIFT,
+            GLOBAL_BIT_MASK,
+            glyph_flag::DEFINED,
+            glyph_flag::UNSAFE_TO_BREAK,
+            glyph_flag::UNSAFE_TO_CONCAT,
+            glyph_flag::SAFE_TO_INSERT_TATWEEL,
+        ]
+    }
+
+    /// F_GLOBAL, F_HAS_FALLBACK, F_MANUAL_ZWNJ, F_MANUAL_ZWJ, F_GLOBAL_SEARCH, F_RANDOM, F_PER_SYLLABLE
+    pub fn feature_flags() -> [u32; 7] {
+        [
+            F_GLOBAL,
+            F_HAS_FALLBACK,
+            F_MANUAL_ZWNJ,
+            F_MANUAL_ZWJ,
+            F_GLOBAL_SEARCH,
+            F_RANDOM,
+            F_PER_SYLLABLE,
+        ]
+    }
+
+    #[derive(Clone, Copy, Debug)]
+    pub enum Op {
+        Add(u32, u32, u32),
+        Enable(u32, u32, u32),
+        Disable(u32),
+        PauseGsub,
+        PauseGpos,
+    }
+
+    fn opt<T: core::fmt::Display>(x: Option<T>) -> String {
+        match x {
+            Some(v) => format!("{}", v),
+            None => String::from("-"),
+        }
+    }
+
+    /// One-line dump of a compiled map:
+    /// `g=<global_mask> F <tag:i0:i1:s0:s1:shift:mask:one:zwnj:zwj:rand:persyl>* ; L0 <idx:mask:zwnj:zwj:rand:persyl>* S0 <last_lookup>* ; L1 .. S1 ..`
+    pub fn dump_map(map: &hb_ot_map_t) -> String {
+        let mut s = format!("g={} F", map.global_mask);
+        for f in &map.features {
+            s.push_str(&format!(
+                " {}:{}:{}:{}:{}:{}:{}:{}:{}:{}:{}:{}",
+                f.tag.0,
+                opt(f.index[0]),
+                opt(f.index[1]),
+                f.stage[0],
+                f.stage[1],
+                f.shift,
+                f.mask,
+                f.one_mask,
+                f.auto_zwnj as u8,
+                f.auto_zwj as u8,
+                f.random as u8,
+                f.per_syllable as u8
+            ));
+        }
+        for t in 0..2 {
+            s.push_str(&format!(" ; L{}", t));
+            for l in &map.lookups[t] {
+                s.push_str(&format!(
+                    " {}:{}:{}:{}:{}:{}",
+                    l.index,
+                    l.mask,
+                    l.auto_zwnj as u8,
+                    l.auto_zwj as u8,
+                    l.random as u8,
+                    l.per_syllable as u8
+                ));
+            }
+            s.push_str(&format!(" S{}", t));
+            for st in &map.stages[t] {
+                s.push_str(&format!(" {}", st.last_lookup));
+            }
+        }
+        s
+    }
+
+    /// `get_mask(tag)` and `get_1_mask(tag)` as `mask:shift:one`
+    pub fn get_mask(map: &hb_ot_map_t, tag: u32) -> String {
+        let (m, sh) = map.get_mask(hb_tag_t(tag));
+        format!("{}:{}:{}", m, sh, map.get_1_mask(hb_tag_t(tag)))
+    }
+
+    /// Drives the real builder with an explicit op list and compiles. The reply also lists the deduplicated
+    /// feature infos the builder is left with (`I tag:seq:max:flags:default:s0:s1`).
+    pub fn run_builder(
+        face: &hb_font_t,
+        script: Option<Script>,
+        language: Option<&Language>,
+        is_simple: bool,
+        ops: &[Op],
+    ) -> String {
+        let mut b = hb_ot_map_builder_t::new(face, script, language);
+        b.is_simple = is_simple;
+        for op in ops {
+            match *op {
+                Op::Add(t, f, v) => b.add_feature(hb_tag_t(t), f, v),
+                Op::Enable(t, f, v) => b.enable_feature(hb_tag_t(t), f, v),
+                Op::Disable(t) => b.disable_feature(hb_tag_t(t)),
+                Op::PauseGsub => b.add_gsub_pause(None),
+                Op::PauseGpos => b.add_gpos_pause(None),
+            }
+        }
+        let map = b.compile();
+        let mut s = dump_map(&map);
+        s.push_str(" ; I");
+        for i in &b.feature_infos {
+            s.push_str(&format!(
+                " {}:{}:{}:{}:{}:{}:{}",
+                i.tag.0, i.seq, i.max_value, i.flags, i.default_value, i.stage[0], i.stage[1]
+            ));
+        }
+        s
+    }
+
+    /// What the builder reads from the font for the given script/language and tags (the model takes these as data):
+    /// `P <gsub present> <gpos present> R <idx:tag|-> <idx:tag|-> N <lookup_count0> <lookup_count1>
+    ///  T <tag:lang0:lang1:any0:any1>* X <table:feature_index:l,l,..>*`
+    pub fn font_facts(
+        face: &hb_font_t,
+        script: Option<Script>,
+        language: Option<&Language>,
+        tags: &[u32],
+    ) -> String {
+        let b = hb_ot_map_builder_t::new(face, script, language);
+        let mut present = [false; 2];
+        let mut req = [String::from("-"), String::from("-")];
+        let mut nl = [0u16; 2];
+        for (ti, table) in face.layout_tables() {
+            present[ti as usize] = true;
+            nl[ti as usize] = table.lookups.len();
+            if let Some(script) = b.script_index[ti] {
+                if let Some((idx, tag)) =
+                    table.get_required_language_feature(script, b.lang_index[ti])
+                {
+                    req[ti as usize] = format!("{}:{}", idx, tag.0);
+                }
+            }
+        }
+        let mut s = format!(
+            "P {} {} R {} {} N {} {} T",
+            present[0] as u8, present[1] as u8, req[0], req[1], nl[0], nl[1]
+        );
+        let mut feats: Vec<(usize, FeatureIndex)> = Vec::new();
+        for ti in 0..2 {
+            if let Some(r) = req[ti].split(':').next().and_then(|x| x.parse::<u16>().ok()) {
+                feats.push((ti, r));
+            }
+        }
+        for &t in tags {
+            let tag = hb_tag_t(t);
+            let mut lf = [None; 2];
+            let mut any = [None; 2];
+            for (ti, table) in face.layout_tables() {
+                if let Some(script) = b.script_index[ti] {
+                    lf[ti as usize] = table.find_language_feature(script, b.lang_index[ti], tag);
+                }
+                any[ti as usize] = table.features.index(tag);
+                for x in [lf[ti as usize], any[ti as usize]] {
+                    if let Some(i) = x {
+                        if !feats.contains(&(ti as usize, i)) {
+                            feats.push((ti as usize, i));
+                        }
+                    }
+                }
+            }
+            s.push_str(&format!(
+                " {}:{}:{}:{}:{}",
+                t,
+                opt(lf[0]),
+                opt(lf[1]),
+                opt(any[0]),
+                opt(any[1])
+            ));
+        }
+        s.push_str(" X");
+        for (ti, fi) in feats {
+            let tix = if ti == 0 {
+                TableIndex::GSUB
+            } else {
+                TableIndex::GPOS
+            };
+            let Some(table) = face.layout_table(tix) else {
+                continue;
+            };
+            let coords = face.ttfp_face.variation_coordinates();
+            let variation_index = table.variations.and_then(|v| v.find_index(coords));
+            let feature = match variation_index {
+                Some(idx) => table
+                    .variations
+                    .and_then(|var| var.find_substitute(fi, idx))
+                    .or_else(|| table.features.get(fi)),
+                None => table.features.get(fi),
+            };
+            if let Some(feature) = feature {
+                let ls: Vec<String> = feature
+                    .lookup_indices
+                    .into_iter()
+                    .map(|l| format!("{}", l))
+                    .collect();
+                s.push_str(&format!(
+                    " {}:{}:{}",
+                    ti,
+                    fi,
+                    if ls.is_empty() {
+                        String::from("-")
+                    } else {
+                        ls.join(",")
+                    }
+                ));
+            }
+        }
+        s
+    }
 }
